@@ -126,7 +126,29 @@ func (e *Exec) evalCallInner(st *State, call *ast.CallExpr) []Term {
 						args = append(args, e.eval(st, a))
 					}
 					e.callSiteAsserts(st, call, f.Sel.Name, Term{}, args)
-					e.Assumed["callback "+f.Sel.Name+" (application code) assumed not to modify the node's state or the objects it is handed; its results are unconstrained"] = true
+					mods := e.Fn.C.CallbackMods[f.Sel.Name]
+					if len(mods) == 0 {
+						e.Assumed["callback "+f.Sel.Name+" (application code) assumed not to modify the node's state or the objects it is handed; its results are unconstrained"] = true
+					} else {
+						e.Assumed["callback "+f.Sel.Name+" assumed to modify at most: "+strings.Join(mods, ", ")+"; its results are unconstrained"] = true
+						if sc, err := e.P.scopeFor(e.Fn.C); err == nil {
+							for _, m := range mods {
+								for _, d := range e.designators(st, e.Fn.C, m, sc) {
+									if d.key == "*" {
+										e.havocKeys(st, map[string]bool{"*": true})
+										continue
+									}
+									cur := e.heapGet(st, d.key)
+									if d.whole {
+										cur = e.Ctx.Fresh("cbw", e.keySort[d.key])
+									} else {
+										cur = Store(cur, d.ref, e.Ctx.Fresh("cb", arrayElem(e.keySort[d.key])))
+									}
+									e.heapSet(st, d.key, e.Ctx.Define("cbk", cur))
+								}
+							}
+						}
+					}
 					e.havocMemo(st)
 					return e.freshResults(st, call, f.Sel.Name)
 				}
